@@ -155,7 +155,7 @@ def stepSt (st : St) (op : Op) : St :=
   let taint := mapIdxFrom (fun i (t : Bool) =>
       match op.project i with
       | .syncInc _ => if !(pre.getD i true) then true
-                      else if (world.pairs.getD i default).cell.n % st.v.cfg.period == 0 then false else t
+                      else if (world.pairs.getD i default).cell.n % st.v.cfg.period == 0 && (world.pairs.getD i default).cell.n != 0 then false else t
       | .sync => if (world.pairs.getD i default).cell.n == 0 then t else false
       | .ctor _ => false
       | _ => t) 0 st.taint
